@@ -165,6 +165,8 @@ inductive Query where
   | axis (count : Int) (start : Option Int) (sp : Option Rat)
   deriving Repr, Inhabited
 
+deriving instance DecidableEq for Except
+
 inductive Ans where
   | idx (r : Except Err Int)
   | pair (r : Except Err (Option (Int × Int)))
@@ -174,7 +176,7 @@ inductive Ans where
   | fail (e : Err)
   /-- the call does not exist for this kind of dimension / the handle or source does not exist -/
   | na
-  deriving Repr, Inhabited
+  deriving Repr, Inhabited, DecidableEq
 
 /-- `SetDimension.index_of`: the two tests on the position come before the labels are read -/
 def setIndexOfS (srcs : List Source) (stored : Option Nat) (link : Option Link) (pos : Rat)
